@@ -12,8 +12,11 @@ a request for `name` is
                       enabled, the prefix is non-empty and the object has
                       prefix+name }
 A normal result must be a member of that set; a refusal (AttributeError from
-the policy) is correct iff the set is empty.  When both members are present the
-text does not say which one wins, so either is accepted.
+the policy) is correct iff the set is empty.  When both members are present:
+an allowed name that exists on the object is itself what is accessed (the twin
+is "then what is accessed" only for a name that could not be accessed as such);
+when the allowed name does not exist on the object the text does not say
+whether the twin may stand in, so either is accepted.
 
 This module never imports or calls rpyc.
 """
@@ -47,9 +50,11 @@ def decision(cfg, perm, name, has, safe_names):
     return allowed, twin, twin_name
 
 
-def result_ok(allowed, twin, twin_name, name, got):
-    """a normal result `got` is a permitted target"""
-    return z3.Or(z3.And(allowed, got == name), z3.And(twin, got == twin_name))
+def result_ok(allowed, twin, twin_name, name, got, has_name=None):
+    """a normal result `got` is a permitted target; has_name: the object has an attribute called `name`"""
+    if has_name is None:
+        return z3.Or(z3.And(allowed, got == name), z3.And(twin, got == twin_name))
+    return z3.Or(z3.And(allowed, got == name), z3.And(twin, z3.Not(z3.And(allowed, has_name)), got == twin_name))
 
 
 def refusal_ok(allowed, twin):
